@@ -464,9 +464,16 @@ class Engine:
         self._bounds(st, do, d.off, n, 'memset')
         r = None
         for r_ in do.regions:
-            if d.off < r_.base + r_.esz*r_.cnt and d.off + n > r_.base:
-                if d.off >= r_.base and d.off + n <= r_.base + r_.esz*r_.cnt: r = r_
-                else: raise Unsupported("memset partially overlapping an array region")
+            lo_, hi_ = r_.base, r_.base + r_.esz*r_.cnt
+            if d.off < hi_ and d.off + n > lo_:
+                if d.off >= lo_ and d.off + n <= hi_: r = r_
+                else:
+                    # split into the part before, inside and behind the region
+                    if d.off < lo_: self.memset(st, d, v, lo_ - d.off)
+                    a_ = max(d.off, lo_); b_ = min(d.off + n, hi_)
+                    self.memset(st, Ptr(d.obj, a_), v, b_ - a_)
+                    if d.off + n > hi_: self.memset(st, Ptr(d.obj, hi_), v, d.off + n - hi_)
+                    return
         if r is not None:
             if not (is_c(v) and (d.off - r.base) % r.esz == 0 and n % r.esz == 0): raise Unsupported("memset on region")
             w = sum((v & 0xff) << (8*i) for i in range(r.esz))
